@@ -1,4 +1,4 @@
 #!/bin/sh
 # usage: rf.sh <name under /tmp/rfw> Cxx [args]  - run one check against a persistent scratch worktree (false-alarm experiments)
 W=${RFW:-/tmp/rfw}/$1; shift
-VERIF_CACHE_KEEP=80 VERIF_REPO=$W VERIF_NO_EVIDENCE=1 /verif/check "$@"
+VERIF_CACHE_KEEP=${VERIF_CACHE_KEEP:-80} VERIF_REPO=$W VERIF_NO_EVIDENCE=1 /verif/check "$@"
